@@ -13,7 +13,7 @@ open Gen_common
 type string = Stdlib.String.t
 
 let utable : (byte list * (n * n) list) list ref = ref []
-let limit = 20000
+let limit = 3000
 let fuel = nat_of_int 30000
 
 let split_on_bar s = String.split_on_char '|' s
@@ -90,7 +90,23 @@ let () =
          let d = norm d and v = norm v in
          if d = "Limit" || v = "Limit" then incr limited
          else begin
-           if d <> v then begin
+           let names = Array.of_list (List.map (fun r -> string_of_bytes r.oname) og) in
+           let input = unhex inp in
+           let run env start =
+             (try
+                let r = run_state cfg env fuel start input (Some (nat_of_int limit)) false in
+                (* a run that ever touched the call limit is not comparable: the two back-ends count different calls *)
+                match r with
+                | ROk s | RErr s when limit_reached s -> "Limit"
+                | _ -> obs_of names r
+              with Stack_overflow -> "Fuel") in
+           let u = !utable in
+           let mg = run (gen_env og u) (gen_start og u (bytes_of rule)) in
+           let mv = run (vm_env og (ulookup u)) (vm_start og (ulookup u) (bytes_of rule)) in
+           if mg <> "Fuel" && mg <> "Limit" && mg <> d then report "model" (full ^ " side=generated") d mg;
+           if mv <> "Fuel" && mv <> "Limit" && mv <> v then report "model" (full ^ " side=vm") v mv;
+           if mg = "Limit" || mv = "Limit" then incr limited
+           else if d <> v then begin
              let seen = (try Hashtbl.find per_grammar id with Not_found -> 0) in
              Hashtbl.replace per_grammar id (seen + 1);
              if why = 0 then begin incr spec_in_h; if seen < 2 then report "spec" full d v end
@@ -101,15 +117,7 @@ let () =
                Hashtbl.replace known_by_class c (k + 1);
                if k < 2 then Printf.printf "KNOWN\t%s\t%s\t%s\t%s\n" c full d v
              end
-           end;
-           let names = Array.of_list (List.map (fun r -> string_of_bytes r.oname) og) in
-           let input = unhex inp in
-           let run env start = (try obs_of names (run_state cfg env fuel start input (Some (nat_of_int limit)) false) with Stack_overflow -> "Fuel") in
-           let u = !utable in
-           let mg = run (gen_env og u) (gen_start og u (bytes_of rule)) in
-           let mv = run (vm_env og (ulookup u)) (vm_start og (ulookup u) (bytes_of rule)) in
-           if mg <> "Fuel" && mg <> "Limit" && mg <> d then report "model" (full ^ " side=generated") d mg;
-           if mv <> "Fuel" && mv <> "Limit" && mv <> v then report "model" (full ^ " side=vm") v mv
+           end
          end
        | _ -> ())
     | _ -> ());
